@@ -91,6 +91,8 @@ pub enum Aux {
     SetBit,
     /// check-specific list
     Custom,
+    /// further check-specific lists
+    K(u8),
 }
 
 pub struct Op<T, Z: ZNum> {
@@ -104,6 +106,19 @@ pub struct Op<T, Z: ZNum> {
     /// panics often (a Rust panic costs microseconds): on plans with `heavy_b_limit` such an
     /// operation is explored against the first `heavy_b_limit` values of the second register only
     pub heavy: bool,
+    /// compare only panic / no-panic (the returned value belongs to another property)
+    pub panic_only: bool,
+}
+
+impl<T, Z: ZNum> Op<T, Z> {
+    pub fn po(mut self) -> Self {
+        self.panic_only = true;
+        self
+    }
+    pub fn hv(mut self) -> Self {
+        self.heavy = true;
+        self
+    }
 }
 
 pub struct Plan<T> {
@@ -404,6 +419,7 @@ impl Run {
                     let step = |oi: usize, regs: &[T; 3], ctx: &Ctx<Z>, st: &mut Vec<OpStat>, viols: &mut Vec<Violation>| {
                         let op = &ops[oi];
                         let e = (op.spec)(ctx);
+                        let e = if op.panic_only { e.panic_only() } else { e };
                         let s = &mut st[oi];
                         match &e {
                             Expect::Skip => {
@@ -583,6 +599,7 @@ impl Run {
         let z: [Z; 3] = [regs[0].z(), regs[1].z(), regs[2].z()];
         let ctx = Ctx::new(T::ti(), [&z[0], &z[1], &z[2]], aux, self.debug);
         let e = (op.spec)(&ctx);
+        let e = if op.panic_only { e.panic_only() } else { e };
         let o = match catch_unwind(AssertUnwindSafe(|| (op.f)(&regs, aux))) {
             Ok(o) => o,
             Err(_) => Obs::Panic,
@@ -807,14 +824,14 @@ pub fn oord<Z: ZNum>(x: Option<std::cmp::Ordering>) -> Obs<Z> {
 #[macro_export]
 macro_rules! op {
     ($name:expr, $arity:expr, $aux:expr, $spec:path, |$r:ident, $x:ident| $body:expr) => {
-        $crate::engine::Op { name: $name, arity: $arity, aux: $aux, f: |$r, $x| $body, spec: $spec, pscope: true, heavy: false }
+        $crate::engine::Op { name: $name, arity: $arity, aux: $aux, f: |$r, $x| $body, spec: $spec, pscope: true, heavy: false, panic_only: false }
     };
 }
 /// Same, but expected panics are outside the property's statement (such states are skipped)
 #[macro_export]
 macro_rules! opn {
     ($name:expr, $arity:expr, $aux:expr, $spec:path, |$r:ident, $x:ident| $body:expr) => {
-        $crate::engine::Op { name: $name, arity: $arity, aux: $aux, f: |$r, $x| $body, spec: $spec, pscope: false, heavy: false }
+        $crate::engine::Op { name: $name, arity: $arity, aux: $aux, f: |$r, $x| $body, spec: $spec, pscope: false, heavy: false, panic_only: false }
     };
 }
 
@@ -823,6 +840,64 @@ macro_rules! opn {
 #[macro_export]
 macro_rules! oph {
     ($name:expr, $arity:expr, $aux:expr, $spec:path, |$r:ident, $x:ident| $body:expr) => {
-        $crate::engine::Op { name: $name, arity: $arity, aux: $aux, f: |$r, $x| $body, spec: $spec, pscope: true, heavy: true }
+        $crate::engine::Op { name: $name, arity: $arity, aux: $aux, f: |$r, $x| $body, spec: $spec, pscope: true, heavy: true, panic_only: false }
+    };
+}
+
+/// primitive integer types usable as a shift amount
+pub trait ShiftRhs: Sized + Copy {
+    const MIN_MAG: u128;
+    const MAX: u128;
+    const K: u8;
+    fn from_amt(a: refmodel::sets::Amt) -> Self;
+}
+macro_rules! shift_rhs {
+    ($($t:ty, $k:expr);*) => {$(
+        impl ShiftRhs for $t {
+            const MIN_MAG: u128 = (<$t>::MIN as i128).unsigned_abs();
+            const MAX: u128 = <$t>::MAX as u128;
+            const K: u8 = $k;
+            fn from_amt(a: refmodel::sets::Amt) -> Self {
+                if a.neg { (a.mag as i128).wrapping_neg() as $t } else { a.mag as $t }
+            }
+        }
+    )*};
+}
+shift_rhs!(u8, 0; u16, 1; u32, 2; u64, 3; u128, 4; usize, 5; i8, 6; i16, 7; i32, 8; i64, 9; i128, 10; isize, 11);
+
+/// aux domain (indices into `shift_candidates(bits)`) of the amounts representable in R
+pub fn typed_shift_domain<R: ShiftRhs>(bits: u32) -> Vec<u64> {
+    refmodel::sets::shift_candidates(bits)
+        .iter()
+        .enumerate()
+        .filter(|(_, a)| a.fits(R::MIN_MAG, R::MAX))
+        .map(|(i, _)| i as u64)
+        .collect()
+}
+
+impl<T: Subj> Plan<T> {
+    /// add the twelve typed shift-amount domains (Aux::K(0..12))
+    pub fn with_typed_shifts(self) -> Self {
+        let b = T::BITS;
+        self.with_aux(Aux::K(0), typed_shift_domain::<u8>(b))
+            .with_aux(Aux::K(1), typed_shift_domain::<u16>(b))
+            .with_aux(Aux::K(2), typed_shift_domain::<u32>(b))
+            .with_aux(Aux::K(3), typed_shift_domain::<u64>(b))
+            .with_aux(Aux::K(4), typed_shift_domain::<u128>(b))
+            .with_aux(Aux::K(5), typed_shift_domain::<usize>(b))
+            .with_aux(Aux::K(6), typed_shift_domain::<i8>(b))
+            .with_aux(Aux::K(7), typed_shift_domain::<i16>(b))
+            .with_aux(Aux::K(8), typed_shift_domain::<i32>(b))
+            .with_aux(Aux::K(9), typed_shift_domain::<i64>(b))
+            .with_aux(Aux::K(10), typed_shift_domain::<i128>(b))
+            .with_aux(Aux::K(11), typed_shift_domain::<isize>(b))
+    }
+}
+
+/// Same as op!, comparing panic / no-panic only.
+#[macro_export]
+macro_rules! opp {
+    ($name:expr, $arity:expr, $aux:expr, $spec:path, |$r:ident, $x:ident| $body:expr) => {
+        $crate::engine::Op { name: $name, arity: $arity, aux: $aux, f: |$r, $x| $body, spec: $spec, pscope: true, heavy: false, panic_only: true }
     };
 }
